@@ -466,13 +466,26 @@ class History:
             elif not d.registered:
                 self.disp_seq.pop(name, None)
 
-    def _callback(self, rid, gen, raises=False):
+    def _callback(self, rid, gen, raises=False, shape=0):
         log = self.log
 
         def cb(msg, time, addr, recv_port):
             log.append((rid, gen, msg, time, addr, recv_port))
             if raises:
                 raise ValueError('generated: responder function fails')
+        # other signatures a responder function may have; the four values
+        # must arrive all the same ('missing' never equals a real value)
+        if shape == 1:
+            self.labels.add('function_with_defaults')
+            return lambda msg, time='missing', addr='missing', \
+                recv_port='missing': cb(msg, time, addr, recv_port)
+        if shape == 2:
+            self.labels.add('function_with_varargs')
+            return lambda *args: cb(*args)
+        if shape == 3:
+            self.labels.add('function_with_extra_parameter')
+            return lambda msg, time, addr, recv_port, extra=None: cb(
+                msg, time, addr, recv_port)
         return cb
 
     def _pick(self, k):
@@ -498,7 +511,8 @@ class History:
             ctor = OscFunc if m.kind == 'exact' else OscFunc.matching
             if spec.get('raises'):
                 self.labels.add('raising_function')
-            m.obj = ctor(self._callback(m.rid, 0, spec.get('raises', False)),
+            m.obj = ctor(self._callback(m.rid, 0, spec.get('raises', False),
+                                        spec.get('shape', 0)),
                          m.path, src, recv, arg_template=tmpl)
             self.rs.append(m)
             self.labels.add('new:' + m.kind)
@@ -960,6 +974,7 @@ def history_strategy():
                     draw(st.integers(0, 2)) == 0:
                 # a one-value template given as the bare value
                 spec['tmpl_bare'] = True
+            spec['shape'] = draw(st.sampled_from([0, 0, 1, 2, 3]))
             created.append(spec)
             return ['new', spec]
 
